@@ -368,11 +368,12 @@ pub fn run(report: &Report) {
     use crate::models::*;
     let q = report.tier == Tier::Quick;
     report.bound("(a) every node of the range-coder sequence walk and of the ANS history walk (from empty / imported / raw-binary words) up to the listed depths; (b) every model of the listed exhaustive small spaces x 5 reference distributions");
-    report.assume("num_valid_bits after from_binary is also asserted on every case of C04, bit-coder len/is_empty on every transition of C16");
+    report.assume("num_valid_bits after from_binary is also asserted on every case of C04; the bit-level coders are judged here through the C16 explorers (bit-stack BFS: len / is_empty at every state; bit queue: maybe_exhausted after every bit of every bit string), filtered to the size / exhaustion identities");
     for n in ["range_nodes_inverted", "range_decoder_states_with_whole_words_left", "ans_nodes_empty", "ans_decoder_states_with_whole_words_left", "ans_nodes_from_raw_binary", "diagnostic_values_compared", "raw_binary_loads_ending_in_zero_words"] {
         report.require(n);
     }
     diagnostics(report, report.tier);
+    super::c16::size_query_checks(report);
     explore_range::<U8U16>(report, &range_alphabet12::<U8U16>(), if q { 6 } else { 7 }, "a12@P8");
     explore_range::<U8U32>(report, &range_alphabet12::<U8U32>(), if q { 6 } else { 7 }, "a12@P8");
     explore_range::<U8U32>(report, &range_alphabet5::<U8U32>(), if q { 9 } else { 10 }, "a5@P8");
